@@ -379,6 +379,11 @@ Section Repos.
               rewrite ?lntTok_retok, ?map_app, ?map_rev, ?thas_retree, ?hasOfList_retree; simpl;
               rewrite ?thas_retree, ?f_zero; try reflexivity.
 
+  Ltac fm := repeat match goal with
+    | |- context [retok ?a :: map retok ?b] => change (retok a :: map retok b) with (map retok (a :: b))
+    | |- context [retree ?a :: map retree ?b] => change (retree a :: map retree b) with (map retree (a :: b))
+    end.
+
   Lemma fr_retok : forall n,
     (forall dp dn tl, frDoPile n dp dn (map retok tl) = option_map re_tl (frDoPile n dp dn tl)) /\
     (forall dp dn tl ll, doPileLines n dp dn (map retok tl) (map retree ll)
@@ -409,13 +414,14 @@ Section Repos.
       rewrite tokIs_retok. destruct (tokIs t KW_EndPile); auto.
       change (retok t :: map retok r) with (map retok (t :: r)).
       rewrite IH3. destruct (frDoLine n dp dn (t :: r)) as [[lnt tl']|]; simpl; auto.
-      change (retree lnt :: map retree ll) with (map retree (lnt :: ll)). apply IH2.
+      change (retree lnt :: map retree ll) with (map retree (lnt :: ll)). fm; apply IH2.
     - (* frDoLine *)
       intros dp dn [|t r]; simpl; [fin|].
-      change (@nil tree) with (map retree []).
+      change (@nil tree) with (map retree []) at 1.
       change (retok t :: map retok r) with (map retok (t :: r)).
       rewrite IH4. destruct (doLineLoop n dp dn (t :: r) [] 0%nat) as [[[ll k] tl']|]; simpl; auto.
-      unfold re_tl; simpl. rewrite linIndentation_retok, makeLine_retree. reflexivity.
+      unfold re_tl; simpl. change (retok t :: map retok r) with (map retok (t :: r)).
+      rewrite linIndentation_retok, makeLine_retree. reflexivity.
     - (* doLineLoop *)
       intros dp dn [|t r] ll k; simpl; auto.
       rewrite !tokIs_retok.
@@ -425,20 +431,21 @@ Section Repos.
         change (retree lnt :: map retree ll) with (map retree (lnt :: ll)).
         destruct tl'; simpl.
         - rewrite !andb_false_r. reflexivity.
-        - match goal with |- (if ?c then _ else _) = _ => destruct c end; auto. apply IH4. }
+        - match goal with |- (if ?c then _ else _) = _ => destruct c end; auto. fm; apply IH4. }
       destruct (tokIs t KW_OCurly).
       { rewrite IH5. destruct (frDontPile n dp dn (t :: r)) as [[lnt tl']|]; simpl; auto.
         change (retree lnt :: map retree ll) with (map retree (lnt :: ll)).
         destruct tl'; simpl.
         - rewrite !andb_false_r. reflexivity.
-        - match goal with |- (if ?c then _ else _) = _ => destruct c end; auto. apply IH4. }
+        - match goal with |- (if ?c then _ else _) = _ => destruct c end; auto. fm; apply IH4. }
       destruct (tokIs t KW_EndPile).
-      { simpl. match goal with |- (if ?c then _ else _) = _ => destruct c end; auto. apply IH4. }
+      { simpl. match goal with |- (if ?c then _ else _) = _ => destruct c end; auto. fm; apply IH4. }
       rewrite lntTok_retok.
       change (retree (lntTok t) :: map retree ll) with (map retree (lntTok t :: ll)).
+      set (L := map retree (lntTok t :: ll)).
       destruct r; simpl.
       + rewrite !andb_false_r. reflexivity.
-      + match goal with |- (if ?c then _ else _) = _ => destruct c end; auto. apply IH4.
+      + match goal with |- (if ?c then _ else _) = _ => destruct c end; auto. subst L. fm; apply IH4.
     - (* frDontPile *)
       intros dp dn [|t0 r]; simpl; auto.
       rewrite IH6. destruct (frDontLine n dp (S dn) r true) as [[body tl1]|]; simpl; auto.
@@ -449,17 +456,18 @@ Section Repos.
       + rewrite tokIs_retok. destruct (tokIs t KW_CCurly); fin.
     - (* frDontLine *)
       intros dp dn [|t r] st; simpl; [fin|].
-      change (@nil tree) with (map retree []).
+      change (@nil tree) with (map retree []) at 1.
       change (retok t :: map retok r) with (map retok (t :: r)).
       rewrite IH7. destruct (dontLineLoop n dp dn (t :: r) st 0%nat [] 0%nat) as [[[ll k] tl']|]; simpl; auto.
-      unfold re_tl; simpl. rewrite linIndentation_retok, makeLine_retree. reflexivity.
+      unfold re_tl; simpl. change (retok t :: map retok r) with (map retok (t :: r)).
+      rewrite linIndentation_retok, makeLine_retree. reflexivity.
     - (* dontLineLoop *)
       intros dp dn [|t r] st d ll k; simpl; auto.
       rewrite !tokIs_retok.
       change (retok t :: map retok r) with (map retok (t :: r)).
       destruct (tokIs t KW_StartPile).
       { rewrite IH1. destruct (frDoPile n dp dn (t :: r)) as [[lnt tl']|]; simpl; auto.
-        change (retree lnt :: map retree ll) with (map retree (lnt :: ll)). apply IH7. }
+        change (retree lnt :: map retree ll) with (map retree (lnt :: ll)). fm; apply IH7. }
       destruct (st && tokIs t KW_CCurly && Nat.eqb d 0); auto.
       rewrite lntTok_retok.
       change (retree (lntTok t) :: map retree ll) with (map retree (lntTok t :: ll)). apply IH7.
@@ -537,10 +545,8 @@ Section Repos.
       destruct (ind_eqb (tindent l) indS).
       { change (retree l :: map retree sofar) with (map retree (l :: sofar)). apply IH. }
       destruct sofar as [|c0 s]; simpl; auto.
-      change (retree l :: map retree rest) with (map retree (l :: rest)).
-      change (Some (retree c0)) with (option_map retree (Some c0)).
-      change (@nil tree) with (map retree []).
-      rewrite IH. destruct (pileLoop n (Some c0) (tindent l) (l :: rest) []) as [[r lines']|]; simpl; auto.
+      pose proof (IH (Some c0) (tindent l) (l :: rest) []) as E. simpl in E. rewrite E. clear E.
+      destruct (pileLoop n (Some c0) (tindent l) (l :: rest) []) as [[r lines']|]; simpl; auto.
       change (retree r :: map retree s) with (map retree (r :: s)). apply IH.
   Qed.
 
@@ -551,6 +557,8 @@ Section Repos.
     rewrite tindent_retree. change (retree l0 :: map retree r) with (map retree (l0 :: r)).
     change (@nil tree) with (map retree []). apply pileLoop_retree.
   Qed.
+
+  Local Arguments pile0 : simpl never.
 
   Lemma pileRest_retree : forall n rnt lines,
     pileRest n (retree rnt) (map retree lines) = option_map retree (pileRest n rnt lines).
@@ -591,9 +599,10 @@ Section Repos.
                 = map retree (if hs && he then removelast (if hs then tl args else args)
                               else if hs then tl args else args)).
     { destruct hs, he; simpl; rewrite ?tl_map, ?removelast_map; reflexivity. }
-    rewrite E. change (@None tree) with (option_map retree None).
-    rewrite pile0_retree.
-    match goal with |- context [pile0 ?n None ?l] => destruct (pile0 n None l) as [[rnt lines']|] end; simpl; auto.
+    rewrite E.
+    match goal with |- context [pile0 ?n None (map retree ?l)] =>
+      pose proof (pile0_retree n None l) as E2; cbn [option_map] in E2; rewrite E2;
+      destruct (pile0 n None l) as [[rnt lines']|] end; simpl; auto.
     apply pileRest_retree.
   Qed.
 
@@ -627,3 +636,431 @@ Section Repos.
   Qed.
 
 End Repos.
+
+(* ------------------------------------------------------------------ erasing positions *)
+
+Definition etok (t : tok) : N * N := (ttag t, tval t).
+Definition erase (l : list tok) : list (N * N) := map etok l.
+Definition oerase (o : option (list tok)) : option (list (N * N)) := option_map erase o.
+
+Lemma erase_retok : forall f g l, erase (map (retok f g) l) = erase l.
+Proof. intros. unfold erase. rewrite map_map. reflexivity. Qed.
+
+(* lin_monotone_reindent: ANY strictly monotone re-mapping f of the columns that keeps the
+   "no position" column 0 (scanner columns start at 1) and ANY re-mapping g of the line numbers
+   leaves the linearised stream unchanged up to positions. *)
+Theorem lin_monotone_reindent_pos : forall (f g : N -> N),
+  (forall a b, a < b -> f a < f b) -> f 0 = 0 ->
+  forall ts, linearize (map (retok f g) ts) = option_map (map (retok f g)) (linearize ts).
+Proof. intros f g Hm H0 ts. now apply linearize_retok. Qed.
+
+Theorem lin_monotone_reindent_erase : forall (f g : N -> N),
+  (forall a b, a < b -> f a < f b) -> f 0 = 0 ->
+  forall ts, oerase (linearize (map (retok f g) ts)) = oerase (linearize ts).
+Proof.
+  intros f g Hm H0 ts. rewrite linearize_retok by assumption.
+  destruct (linearize ts); simpl; auto. now rewrite erase_retok.
+Qed.
+
+(* a re-mapping only defined / monotone on the columns the scanner produces (>= 1) *)
+Theorem lin_monotone_reindent_from1 : forall (f g : N -> N),
+  (forall a b, 1 <= a -> a < b -> f a < f b) -> (forall a, 1 <= a -> 1 <= f a) ->
+  forall ts, Forall (fun t => match tpos t with Some (_, c) => 1 <= c | None => True end) ts ->
+  oerase (linearize (map (retok f g) ts)) = oerase (linearize ts).
+Proof.
+  intros f g Hm H1 ts Hts.
+  set (f' := fun c => if N.eqb c 0 then 0 else f c).
+  assert (E : map (retok f g) ts = map (retok f' g) ts).
+  { apply map_ext_in. intros t Ht. rewrite Forall_forall in Hts. specialize (Hts t Ht).
+    destruct t as [a v [[l c]|]]; unfold retok; simpl in *; auto.
+    unfold f'. destruct (N.eqb_spec c 0); [lia | reflexivity]. }
+  rewrite E. apply lin_monotone_reindent_erase.
+  - intros a b L. unfold f'.
+    destruct (N.eqb_spec a 0) as [->|Na]; destruct (N.eqb_spec b 0) as [->|Nb]; try lia.
+    + specialize (H1 b). lia.
+    + apply Hm; lia.
+  - reflexivity.
+Qed.
+
+(* ------------------------------------------------------------------ blank lines and comments *)
+
+Lemma xbl_skip : forall l, linXBlankLines l = linXBlankLinesSkip l.
+Proof.
+  unfold linXBlankLines. induction l as [|t r IH]; simpl; auto.
+  destruct (tokIs t KW_NewLine) eqn:E; auto. simpl. rewrite E. simpl.
+  destruct (tokIs t KW_StartPile); reflexivity.
+Qed.
+
+Lemma xbl_insert_nl_mid : forall t n Q, tokIs n KW_NewLine = true ->
+  (tokIs t KW_NewLine || tokIs t KW_StartPile) = true ->
+  forall P, linXBlankLinesLoop (P ++ t :: n :: Q) = linXBlankLinesLoop (P ++ t :: Q)
+         /\ linXBlankLinesSkip (P ++ t :: n :: Q) = linXBlankLinesSkip (P ++ t :: Q).
+Proof.
+  intros t n Q Hn Ht. induction P as [|x P [IH1 IH2]].
+  - simpl. rewrite Ht, Hn. split; auto.
+    destruct (tokIs t KW_NewLine); auto. simpl in Ht. rewrite Ht. reflexivity.
+  - simpl. rewrite IH1, IH2. split; reflexivity.
+Qed.
+
+(* at the beginning of a line, looking back over comments: nothing, a newline, or `#pile`
+   (the `#pile` command line swallows its own newline) *)
+Fixpoint at_bol (rev_prefix : list tok) : bool :=
+  match rev_prefix with
+  | [] => true
+  | t :: r => if tokIs t TK_Comment then at_bol r
+              else tokIs t KW_NewLine || tokIs t KW_StartPile
+  end.
+
+Lemma at_bol_filtered : forall rp, at_bol rp = true ->
+  let P := linXTokens TK_Comment (rev rp) in
+  P = [] \/ exists P' t, P = P' ++ [t] /\ (tokIs t KW_NewLine || tokIs t KW_StartPile) = true.
+Proof.
+  induction rp as [|t r IH]; simpl; intros H; auto.
+  unfold linXTokens in *. rewrite filter_app. simpl.
+  destruct (tokIs t TK_Comment) eqn:E; simpl.
+  - rewrite app_nil_r. auto.
+  - right. exists (filter (fun t0 => negb (tokIs t0 TK_Comment)) (rev r)), t. auto.
+Qed.
+
+Theorem lin_insert_comment : forall pre c post, tokIs c TK_Comment = true ->
+  linearize (pre ++ c :: post) = linearize (pre ++ post).
+Proof.
+  intros pre c post Hc.
+  assert (E : linXTokens TK_Comment (pre ++ c :: post) = linXTokens TK_Comment (pre ++ post)).
+  { unfold linXTokens. rewrite !filter_app. simpl. rewrite Hc. reflexivity. }
+  unfold linearize. rewrite E. reflexivity.
+Qed.
+
+Theorem lin_insert_blank_line : forall pre n post, tokIs n KW_NewLine = true ->
+  at_bol (rev pre) = true ->
+  linearize (pre ++ n :: post) = linearize (pre ++ post).
+Proof.
+  intros pre n post Hn Hb.
+  assert (E : linXBlankLines (linXTokens TK_Comment (pre ++ n :: post))
+            = linXBlankLines (linXTokens TK_Comment (pre ++ post))).
+  { assert (Hc : tokIs n TK_Comment = false).
+    { unfold tokIs in *. apply N.eqb_eq in Hn. rewrite Hn. reflexivity. }
+    unfold linXTokens. rewrite !filter_app. simpl. rewrite Hc. simpl.
+    apply at_bol_filtered in Hb. rewrite rev_involutive in Hb. unfold linXTokens in Hb.
+    destruct Hb as [-> | (P' & t & -> & Ht)].
+    - simpl. unfold linXBlankLines. simpl. rewrite Hn. reflexivity.
+    - rewrite !xbl_skip, <- !app_assoc. simpl. now apply xbl_insert_nl_mid. }
+  unfold linearize. rewrite E. reflexivity.
+Qed.
+
+(* the closure: any sequence of such insertions and deletions *)
+Inductive layout_eq : list tok -> list tok -> Prop :=
+| le_refl : forall l, layout_eq l l
+| le_sym : forall a b, layout_eq a b -> layout_eq b a
+| le_trans : forall a b c, layout_eq a b -> layout_eq b c -> layout_eq a c
+| le_comment : forall pre c post, tokIs c TK_Comment = true ->
+    layout_eq (pre ++ post) (pre ++ c :: post)
+| le_blank : forall pre n post, tokIs n KW_NewLine = true -> at_bol (rev pre) = true ->
+    layout_eq (pre ++ post) (pre ++ n :: post).
+
+Theorem lin_blank_comment_insens : forall a b, layout_eq a b -> linearize a = linearize b.
+Proof.
+  induction 1; auto.
+  - congruence.
+  - symmetry. now apply lin_insert_comment.
+  - symmetry. now apply lin_insert_blank_line.
+Qed.
+
+(* inserted lines shift the line numbers of what follows: combine with re-lining *)
+Corollary lin_blank_comment_insens_relined : forall a b (g : N -> N),
+  layout_eq a b ->
+  oerase (linearize (map (retok (fun c => c) g) b)) = oerase (linearize a).
+Proof.
+  intros a b g H. rewrite lin_monotone_reindent_erase; auto.
+  now rewrite (lin_blank_comment_insens _ _ H).
+Qed.
+
+(* ------------------------------------------------------------------ outside #pile *)
+
+Definition no_pile (l : list tok) : Prop := Forall (fun t => tokIs t KW_StartPile = false) l.
+
+Lemma no_pile_filter : forall p l, no_pile l -> no_pile (filter p l).
+Proof.
+  intros p l H. unfold no_pile in *. rewrite Forall_forall in *.
+  intros t Ht. apply filter_In in Ht. now apply H.
+Qed.
+
+Lemma no_pile_skip : forall l, no_pile l ->
+  no_pile (linXBlankLinesLoop l) /\ no_pile (linXBlankLinesSkip l).
+Proof.
+  induction 1 as [|t r Ht Hr [IH1 IH2]]; simpl.
+  - split; constructor.
+  - rewrite Ht, orb_false_r. destruct (tokIs t KW_NewLine); split; auto; constructor; auto.
+Qed.
+
+Lemma dontLineLoop_ns : forall n dp dn t r d ll k, tokIs t KW_StartPile = false ->
+  dontLineLoop (S n) dp dn (t :: r) false d ll k
+  = dontLineLoop n dp dn r false d (lntTok t :: ll) (S k).
+Proof. intros. simpl. rewrite H. reflexivity. Qed.
+
+Lemma dontLineLoop_nil : forall n dp dn st d ll k,
+  dontLineLoop (S n) dp dn [] st d ll k = Some (ll, k, []).
+Proof. reflexivity. Qed.
+
+Lemma dontLineLoop_nopile : forall tl, no_pile tl ->
+  forall m dp dn d ll k,
+  dontLineLoop (S (length tl) + m) dp dn tl false d ll k
+  = Some (rev (map lntTok tl) ++ ll, (k + length tl)%nat, []).
+Proof.
+  induction 1 as [|t r Ht Hr IH]; intros.
+  - cbn [length plus]. rewrite dontLineLoop_nil. cbn [map rev app length]. now rewrite Nat.add_0_r.
+  - cbn [length plus]. rewrite dontLineLoop_ns by assumption.
+    change (S (length r + m)) with (S (length r) + m)%nat. rewrite IH.
+    cbn [map rev]. rewrite <- app_assoc. simpl. repeat f_equal. lia.
+Qed.
+
+Lemma flat_map_tokOf_lntTok : forall tl, flat_map tokOf (map lntTok tl) = tl.
+Proof. induction tl; simpl; auto. now rewrite IHtl. Qed.
+
+Lemma lntFrTokenList_nopile : forall tl, no_pile tl ->
+  exists t, lntFrTokenList tl = Some t /\ lin2DRules t = Some t /\ lntToTokenList t = tl.
+Proof.
+  intros tl H. unfold lntFrTokenList, parseFuel.
+  destruct tl as [|a r].
+  - simpl. exists emptyLine. auto.
+  - assert (F : (4 * length (a :: r) + 8 = S (S (length (a :: r)) + (3 * length (a :: r) + 6)))%nat) by lia.
+    rewrite F. cbn [frDontLine]. rewrite dontLineLoop_nopile by assumption.
+    rewrite app_nil_r. cbn [plus].
+    destruct r as [|b r'].
+    + simpl. exists (lntTok a). auto.
+    + eexists. split; [reflexivity|].
+      unfold makeLine.
+      assert (L : length (rev (map lntTok (a :: b :: r'))) = length (a :: b :: r')).
+      { now rewrite rev_length, map_length. }
+      rewrite L, Nat.eqb_refl, rev_involutive, flat_map_tokOf_lntTok.
+      destruct (rev (map lntTok (a :: b :: r'))) as [|x [|y z]] eqn:E.
+      * simpl in L. discriminate.
+      * simpl in L. discriminate.
+      * split; [reflexivity|]. unfold lntToTokenList. cbn [toToks].
+        now rewrite app_nil_r, rev_involutive.
+Qed.
+
+Lemma xnl_skip : forall l,
+  linXTokens KW_NewLine (linXBlankLinesLoop l) = linXTokens KW_NewLine l /\
+  linXTokens KW_NewLine (linXBlankLinesSkip l) = linXTokens KW_NewLine l.
+Proof.
+  unfold linXTokens. induction l as [|t r [IH1 IH2]]; simpl; auto.
+  destruct (tokIs t KW_NewLine) eqn:E; simpl.
+  - rewrite E. simpl. auto.
+  - destruct (tokIs t KW_StartPile); simpl; rewrite E; simpl; rewrite ?IH1, ?IH2; auto.
+Qed.
+
+(* lin_nonpile_is_filter: without `#pile` the lineariser is: drop comments and newlines, then the
+   two `;` rules — no position is ever looked at. *)
+Theorem lin_nonpile_is_filter : forall ts, no_pile ts ->
+  linearize ts = Some (linUseNeededSep (linXTokens KW_NewLine (linXTokens TK_Comment ts))).
+Proof.
+  intros ts H. unfold linearize.
+  assert (H2 : no_pile (linXBlankLines (linXTokens TK_Comment ts))).
+  { rewrite xbl_skip. apply no_pile_skip. now apply no_pile_filter. }
+  destruct (lntFrTokenList_nopile _ H2) as (t & E1 & E2 & E3).
+  rewrite E1, E2, E3, xbl_skip. now rewrite (proj2 (xnl_skip _)).
+Qed.
+
+(* ... hence two non-piled token lists with the same ordinary tokens (any positions, any
+   newlines and comments anywhere) linearise to the same stream up to positions *)
+
+Lemma etok_tag : forall t t', etok t = etok t' -> ttag t = ttag t'.
+Proof. intros t t' H. apply (f_equal fst) in H. exact H. Qed.
+
+Lemma etok_tokIs : forall t t' k, etok t = etok t' -> tokIs t k = tokIs t' k.
+Proof. intros t t' k H. unfold tokIs. now rewrite (etok_tag _ _ H). Qed.
+
+Lemma etok_nonstarter : forall t t', etok t = etok t' -> tokIsNonStarter t = tokIsNonStarter t'.
+Proof. intros t t' H. unfold tokIsNonStarter. now rewrite (etok_tag _ _ H). Qed.
+
+Lemma erase_cons : forall t r, erase (t :: r) = etok t :: erase r.
+Proof. reflexivity. Qed.
+
+Lemma erase_cons_inv : forall t r t' r', erase (t :: r) = erase (t' :: r') ->
+  etok t = etok t' /\ erase r = erase r'.
+Proof.
+  intros t r t' r' H. rewrite !erase_cons in H.
+  split; [exact (f_equal (hd (etok t)) H) | exact (f_equal (@tl _) H)].
+Qed.
+
+Lemma erase_nil_inv : forall l, erase l = [] -> l = [].
+Proof. destruct l; [auto | discriminate]. Qed.
+
+Lemma linISep_erase : forall l l', erase l = erase l' ->
+  erase (linISepAfterDontPiles l) = erase (linISepAfterDontPiles l').
+Proof.
+  induction l as [|t r IH]; intros [|t' r'] E; try discriminate; auto.
+  destruct (erase_cons_inv _ _ _ _ E) as [Et Er].
+  cbn [linISepAfterDontPiles].
+  rewrite <- (etok_tokIs t t' KW_CCurly Et). destruct (tokIs t KW_CCurly).
+  - destruct r as [|u r0], r' as [|u' r0']; try discriminate.
+    + rewrite !erase_cons. now rewrite Et.
+    + destruct (erase_cons_inv _ _ _ _ Er) as [Eu _].
+      rewrite <- (etok_tokIs u u' KW_Semicolon Eu). specialize (IH (u' :: r0') Er).
+      destruct (tokIs u KW_Semicolon); rewrite !erase_cons, Et, IH; reflexivity.
+  - rewrite !erase_cons, Et. f_equal. auto.
+Qed.
+
+Lemma linXSepLoop_erase : forall n rest rest' t t', (length rest <= n)%nat ->
+  etok t = etok t' -> erase rest = erase rest' ->
+  erase (linXSepLoop t rest) = erase (linXSepLoop t' rest').
+Proof.
+  induction n as [|n IH]; intros rest rest' t t' L Et Er.
+  { destruct rest; [|simpl in L; lia]. destruct rest'; [|discriminate]. cbn [linXSepLoop].
+    now rewrite !erase_cons, Et. }
+  rewrite (linXSepLoop_unfold t), (linXSepLoop_unfold t').
+  destruct rest as [|s r2], rest' as [|s' r2']; try discriminate.
+  { now rewrite !erase_cons, Et. }
+  destruct (erase_cons_inv _ _ _ _ Er) as [Es Er2]. cbn [length] in L.
+  rewrite <- (etok_tokIs s s' KW_Semicolon Es). destruct (tokIs s KW_Semicolon).
+  - destruct r2 as [|u r3], r2' as [|u' r3']; try discriminate.
+    { now rewrite !erase_cons, Et. }
+    destruct (erase_cons_inv _ _ _ _ Er2) as [Eu Er3]. cbn [length] in L.
+    rewrite <- (etok_nonstarter u u' Eu). destruct (tokIsNonStarter u); rewrite !erase_cons, Et; f_equal.
+    + apply IH; auto. lia.
+    + apply IH; auto. cbn [length]. lia.
+  - rewrite !erase_cons, Et. f_equal. apply IH; auto. lia.
+Qed.
+
+Lemma linXSep_erase : forall l l', erase l = erase l' -> erase (linXSep l) = erase (linXSep l').
+Proof.
+  assert (Lead : forall l l', erase l = erase l' -> erase (linXSepLead l) = erase (linXSepLead l')).
+  { induction l as [|t r IH]; intros [|t' r'] E; try discriminate; auto.
+    destruct (erase_cons_inv _ _ _ _ E) as [Et Er]. cbn [linXSepLead].
+    rewrite <- (etok_tokIs t t' KW_Semicolon Et). destruct (tokIs t KW_Semicolon); auto. }
+  intros l l' E. apply Lead in E. unfold linXSep.
+  destruct (linXSepLead l) as [|t r], (linXSepLead l') as [|t' r']; try discriminate; auto.
+  destruct (erase_cons_inv _ _ _ _ E) as [Et Er]. now apply (linXSepLoop_erase (length r)).
+Qed.
+
+Lemma filter_erase : forall (p : tok -> bool) (q : N * N -> bool),
+  (forall t, p t = q (etok t)) ->
+  forall l, erase (filter p l) = filter q (erase l).
+Proof.
+  intros p q H. induction l as [|t r IH]; simpl; auto.
+  rewrite <- H. destruct (p t); simpl; now rewrite IH.
+Qed.
+
+Theorem lin_nonpile_pos_indep : forall ts ts', no_pile ts -> no_pile ts' ->
+  erase (linXTokens KW_NewLine (linXTokens TK_Comment ts))
+  = erase (linXTokens KW_NewLine (linXTokens TK_Comment ts')) ->
+  oerase (linearize ts) = oerase (linearize ts').
+Proof.
+  intros ts ts' H H' E. rewrite !lin_nonpile_is_filter by assumption. simpl. f_equal.
+  unfold linUseNeededSep. apply linXSep_erase, linISep_erase, E.
+Qed.
+
+(* ------------------------------------------------------------------ examples (hypotheses are satisfiable, results non-trivial) *)
+
+Module Examples.
+  Definition tk (tag id line col : N) : tok := mkTok tag id (Some (line, col)).
+
+  (*  #pile
+      if a then
+          b
+          c
+      else
+          d
+      e                                                       *)
+  Definition ex_piled : list tok :=
+    [ tk KW_StartPile 1 1 1;
+      tk KW_If 2 2 1; tk TK_Id 3 2 4; tk KW_Then 4 2 6; tk KW_NewLine 5 2 10;
+      tk TK_Id 6 3 5; tk KW_NewLine 7 3 6;
+      tk TK_Id 8 4 5; tk KW_NewLine 9 4 6;
+      tk KW_Else 10 5 1; tk KW_NewLine 11 5 5;
+      tk TK_Id 12 6 5; tk KW_NewLine 13 6 6;
+      tk TK_Id 14 7 1; tk KW_NewLine 15 7 2 ].
+
+  Example ex_piled_lin :
+    oerase (linearize ex_piled)
+    = Some [ (KW_SetTab, 0); (KW_If, 2); (TK_Id, 3); (KW_Then, 4);
+             (KW_SetTab, 0); (TK_Id, 6); (KW_BackSet, 0); (TK_Id, 8); (KW_BackTab, 0);
+             (KW_Else, 10); (KW_SetTab, 0); (TK_Id, 12); (KW_BackTab, 0);
+             (KW_BackSet, 0); (TK_Id, 14); (KW_BackTab, 0) ].
+  Proof. vm_compute. reflexivity. Qed.
+
+  (* lin_monotone_reindent: f = "indent three times as wide", g = "shift lines by 7" *)
+  Example ex_reindent_hyp :
+    (forall a b, a < b -> 3 * a < 3 * b) /\ 3 * 0 = 0.
+  Proof. split; [intros; lia | reflexivity]. Qed.
+
+  Example ex_reindent :
+    oerase (linearize (map (retok (fun c => 3 * c) (fun l => l + 7)) ex_piled))
+    = oerase (linearize ex_piled).
+  Proof. apply lin_monotone_reindent_erase; [intros; lia | reflexivity]. Qed.
+
+  (* the same program with a comment line, a blank line after `then`, and a blank line after #pile *)
+  Definition ex_piled_commented : list tok :=
+    [ tk KW_StartPile 1 1 1; tk KW_NewLine 20 2 1;
+      tk KW_If 2 2 1; tk TK_Id 3 2 4; tk KW_Then 4 2 6; tk TK_Comment 21 2 11; tk KW_NewLine 5 2 10;
+      tk TK_Comment 22 3 1; tk KW_NewLine 23 3 9;
+      tk KW_NewLine 24 4 1;
+      tk TK_Id 6 3 5; tk KW_NewLine 7 3 6;
+      tk TK_Id 8 4 5; tk KW_NewLine 9 4 6;
+      tk KW_Else 10 5 1; tk KW_NewLine 11 5 5;
+      tk TK_Id 12 6 5; tk KW_NewLine 13 6 6;
+      tk TK_Id 14 7 1; tk KW_NewLine 15 7 2 ].
+
+  Example ex_layout_eq : layout_eq ex_piled ex_piled_commented.
+  Proof.
+    unfold ex_piled, ex_piled_commented.
+    eapply le_trans; [apply (le_blank [tk KW_StartPile 1 1 1] (tk KW_NewLine 20 2 1)); reflexivity|].
+    eapply le_trans; [apply (le_comment [_; _; _; _; _] (tk TK_Comment 21 2 11)); reflexivity|].
+    eapply le_trans; [apply (le_comment [_; _; _; _; _; _; _] (tk TK_Comment 22 3 1)); reflexivity|].
+    eapply le_trans; [apply (le_blank [_; _; _; _; _; _; _; _] (tk KW_NewLine 23 3 9)); reflexivity|].
+    eapply le_trans; [apply (le_blank [_; _; _; _; _; _; _; _; _] (tk KW_NewLine 24 4 1)); reflexivity|].
+    apply le_refl.
+  Qed.
+
+  (*  { a ; b }  spread over lines, with a comment: not piled *)
+  Definition ex_braced : list tok :=
+    [ tk KW_OCurly 1 1 1; tk KW_NewLine 2 1 2; tk TK_Id 3 2 9; tk KW_Semicolon 4 2 10;
+      tk TK_Comment 5 2 12; tk KW_NewLine 6 2 20; tk TK_Id 7 3 1; tk KW_Semicolon 8 3 2;
+      tk KW_NewLine 9 3 3; tk KW_CCurly 10 4 1; tk KW_NewLine 11 4 2; tk KW_Else 12 5 1 ].
+
+  Example ex_no_pile : no_pile ex_braced.
+  Proof. repeat constructor. Qed.
+
+  Example ex_braced_lin :
+    oerase (linearize ex_braced)
+    = Some [ (KW_OCurly, 1); (TK_Id, 3); (KW_Semicolon, 4); (TK_Id, 7); (KW_CCurly, 10); (KW_Else, 12) ].
+  Proof. vm_compute. reflexivity. Qed.
+End Examples.
+
+(* ------------------------------------------------------------------ indentation columns (include.c / scan.c TABSTOP rule) *)
+
+(* Appending ANY blanks / tabs to an indentation strictly increases its column: nested blocks
+   indented by any non-empty extra white space (1..8 blanks, tabs, mixtures) get strictly
+   increasing first-token columns, which is all lin_monotone_reindent / piled_canon need. *)
+Lemma tabstop_pos : 0 < TABSTOP. Proof. vm_compute. reflexivity. Qed.
+
+Lemma indentLevel_ge : forall ws i, i <= indentLevel ws i.
+Proof.
+  induction ws as [|[|] r IH]; intros i; cbn [indentLevel].
+  - lia.
+  - etransitivity; [|apply IH]. assert (T := tabstop_pos).
+    destruct (N.eqb_spec (i mod TABSTOP) 0); [lia|].
+    assert (i mod TABSTOP < TABSTOP) by (apply N.mod_lt; lia). lia.
+  - etransitivity; [|apply IH]. lia.
+Qed.
+
+Lemma indentLevel_app : forall a b i, indentLevel (a ++ b) i = indentLevel b (indentLevel a i).
+Proof. induction a as [|[|] r IH]; intros; cbn [app indentLevel]; auto. Qed.
+
+Lemma indentLevel_step : forall w i, i < indentLevel [w] i.
+Proof.
+  intros [|] i; cbn [indentLevel]; [|lia]. assert (T := tabstop_pos).
+  destruct (N.eqb_spec (i mod TABSTOP) 0); [lia|].
+  assert (i mod TABSTOP < TABSTOP) by (apply N.mod_lt; lia). lia.
+Qed.
+
+Theorem indent_prefix_mono : forall ws ws' i, ws' <> [] -> indentLevel ws i < indentLevel (ws ++ ws') i.
+Proof.
+  intros ws [|w r] i H; [congruence|]. rewrite indentLevel_app.
+  change (w :: r) with ([w] ++ r). rewrite indentLevel_app.
+  eapply N.lt_le_trans; [apply indentLevel_step | apply indentLevel_ge].
+Qed.
+
+Example ex_indent : indentLevel [false; true; false; false] 0 = TABSTOP + 2 /\ indentLevel [true; true] 0 = 2 * TABSTOP.
+Proof. vm_compute. auto. Qed.
